@@ -303,6 +303,78 @@ Definition fn_swarm_dialaddr := mkFn "swarm_dialaddr"
   ["canonicallog.LogPeerStatus"; "connC.RemoteMultiaddr"; "connC.RemotePeer"; "connWithMetrics.completedHandshake";
    "ctx.Err"; "s.TransportForDialing"; "s.bhd.RecordResult"; "s.metricsTracer.FailedDialing"; "wrapWithMetrics"].
 
+
+(* ---- tcpreuse: the shared TCP listener that samples the first bytes ---------- *)
+Definition fn_identify_conn := mkFn "identify_conn"
+  [("c.Close", (RelRaw, RelRaw, RelRaw));
+   ("peekedConn.Close", (RelRaw, RelRaw, RelRaw))]
+  [] [] [] Nop
+  ["IsHTTP"; "IsMultistreamSelect"; "IsTLS"; "c.SetReadDeadline"; "peekedConn.SetReadDeadline"; "sampledconn.PeekBytes"].
+
+(* multiplexedListener.run: one iteration of the accept loop *)
+Definition fn_tcpreuse_run := mkFn "tcpreuse_run"
+  [("m.GatedMaListener.Accept", (AcqConn, Nop, Impossible));
+   ("connScope.Done", (RelScope, RelScope, RelScope));
+   ("c.Close", (RelRaw, RelRaw, RelRaw))]
+  [] [] [] HandOver
+  ["c.RemoteMultiaddr"; "cancelCtx"; "m.Close"; "m.wg.Add"; "m.wg.Done"; "make"].
+
+(* its per-connection goroutine: owns the raw conn and its scope until the
+   connection is handed to the demultiplexed listener's Accept *)
+Definition fn_tcpreuse_go := mkFn "tcpreuse_go"
+  [("connScope.Done", (RelScope, RelScope, RelScope));
+   ("c.Close", (RelRaw, RelRaw, RelRaw));
+   ("connWithScope.Close", (RelConn, RelConn, RelConn))]
+  [("identifyConnType", "identify_conn")]
+  [("demux.buffer <- connWithScope", HandOver)] [] Nop
+  ["cancelCtx"; "connWithScope.RemoteMultiaddr"; "m.mx.RLock"; "m.mx.RUnlock"; "m.wg.Done"; "manetConnWithScope"].
+
+
+(* ---- WebTransport: the WebTransport session plays the role of the raw connection -- *)
+Definition fn_wt_dial := mkFn "wt_dial"
+  [("t.rcmgr.OpenConnection", (AcqScope, Nop, Impossible));
+   ("scope.Done", (RelScope, RelScope, RelScope))]
+  [("t.dialWithScope", "wt_dial_scope")] [] [] Nop [].
+
+Definition fn_wt_dial_scope := mkFn "wt_dial_scope"
+  [("t.dial", (AcqRaw, Nop, Impossible));
+   ("sess.CloseWithError", (RelRaw, RelRaw, RelRaw));
+   ("qconn.CloseWithError", (RelRaw, RelRaw, RelRaw))]
+  [] [] [] Nop
+  ["extractCertHashes"; "extractSNI"; "len"; "ma.SplitFunc"; "manet.DialArgs"; "newConn"; "scope.SetPeer";
+   "t.addConn"; "t.gater.InterceptSecured"; "t.upgrade"].
+
+Definition fn_wt_http_scope := mkFn "wt_http_scope"
+  [("l.server.Upgrade", (AcqRaw, Nop, Impossible));
+   ("sess.CloseWithError", (RelRaw, RelRaw, RelRaw));
+   ("conn.Close", (RelConn, RelConn, RelConn))]       (* webtransport conn.Close: closes the session, Dones the scope *)
+  []
+  [("l.queue <- conn", HandOver)] [] Nop
+  ["cancel"; "connScope.SetPeer"; "delete"; "l.handshake"; "l.mx.Lock"; "l.mx.Unlock"; "l.transport.addConn";
+   "l.transport.gater.InterceptSecured"; "nconn.StopHandshakeTimeout"; "newConn"; "r.Context"; "r.Context().Value";
+   "sconn.RemotePeer"; "w.WriteHeader"].
+
+Definition fn_wt_http := mkFn "wt_http"
+  [("network.UnwrapConnManagementScope", (AcqScope, Nop, Impossible));
+   ("l.transport.rcmgr.OpenConnection", (AcqScope, Nop, Impossible));
+   ("connScope.Done", (RelScope, RelScope, RelScope))]
+  [("l.httpHandlerWithConnScope", "wt_http_scope")] []
+  [("connScope == nil", CEffect NoScope Nop)]
+  Nop
+  ["l.transport.gater.InterceptAccept"; "len"; "r.Context"; "r.URL.Query"; "stringToWebtransportMultiaddr"; "w.WriteHeader"].
+
+(* ---- circuit relay client: the relayed stream is the raw connection, upgraded like TCP -- *)
+Definition fn_relay_dial := mkFn "relay_dial"
+  [("c.host.Network().ResourceManager().OpenConnection", (AcqScope, Nop, Impossible));
+   ("connScope.Done", (RelScope, RelScope, RelScope))]
+  [("c.dialAndUpgrade", "relay_dial_up")] [] [] Nop
+  ["c.host.Network"; "c.host.Network().ResourceManager"].
+
+Definition fn_relay_dial_up := mkFn "relay_dial_up"
+  [("c.dial", (AcqRaw, Nop, Impossible))]
+  [("c.upgrader.Upgrade", "upgrade_outer")] [] [] Nop
+  ["conn.tagHop"; "connScope.SetPeer"].
+
 (* ---- resource state and interpretation --------------------------------- *)
 Record st := mkSt {
   raw : res; cscope : res; strm : res; sscope : res;
